@@ -56,6 +56,7 @@
  */
 
 #include "src/std.h"
+#include "rc.h"
 #include "lpc/object.h"
 #include "lpc/array.h"
 #include "lpc/mapping.h"
@@ -1406,6 +1407,11 @@ void f_sprintf (void) {
 
   s = string_print_formatted ((sp - num_arg + 1)->u.string,
                               num_arg - 1, sp - num_arg + 2);
+  if (s && COUNTED_STRLEN (s) > (size_t) CONFIG_INT (__MAX_STRING_LENGTH__))
+    {
+      FREE_MSTR (s);
+      error ("*sprintf: the result exceeds the maximum string length.\n");
+    }
   pop_n_elems (num_arg);
 
   (++sp)->type = T_STRING;
